@@ -184,13 +184,8 @@ def run_program(prog, schedule, force, ctl=None, roots=None, arrays=None, env=No
                 continue
             iname = schedule[n] if isinstance(schedule, (list, tuple)) else schedule
             try:
-                if iname.startswith("memoize:"):
-                    with INTERPS[iname.split(":")[1]]:
-                        with memoize():
-                            env[op["out"]] = program.build(op, env, arrays)
-                else:
-                    with INTERPS[iname]:
-                        env[op["out"]] = program.build(op, env, arrays)
+                with nested_contexts(iname):
+                    env[op["out"]] = program.build(op, env, arrays)
             except Exception as e:  # noqa
                 failed[op["out"]] = e
         out = {}
@@ -208,6 +203,33 @@ def run_program(prog, schedule, force, ctl=None, roots=None, arrays=None, env=No
         with seams.controller(ctl):
             return body()
     return body()
+
+
+class nested_contexts:
+    """'a>b>c' = with a: with b: with c (each an interpretation name or
+    'memoize'); 'memoize:x' is shorthand for 'x>memoize'."""
+
+    def __init__(self, spec):
+        if spec.startswith("memoize:"):
+            spec = spec.split(":")[1] + ">memoize"
+        self.names = spec.split(">")
+        self.stack = []
+
+    def __enter__(self):
+        try:
+            for n in self.names:
+                cm = memoize() if n == "memoize" else INTERPS[n]
+                cm.__enter__()
+                self.stack.append(cm)
+        except BaseException:
+            self.__exit__(None, None, None)
+            raise
+        return self
+
+    def __exit__(self, *exc):
+        while self.stack:
+            self.stack.pop().__exit__(*exc)
+        return False
 
 
 def force_value(x, force):
